@@ -170,7 +170,7 @@ func skolemizeGoal(g *Term) (*Term, []*Term) {
 	return r, sks
 }
 
-const maxInstances = 160
+const maxInstances = 240
 
 // instances returns instantiations of the quantified assumptions among facts.
 func instances(facts []*Term, goal *Term, extra []*Term) []*Term {
@@ -194,10 +194,22 @@ func instances(facts []*Term, goal *Term, extra []*Term) []*Term {
 			cl = append(cl, c)
 		}
 	}
-	sort.Slice(cl, func(i, j int) bool { return cl[i].id < cl[j].id })
-	if len(cl) > 16 {
-		// prefer the most recent index terms (the loop body under proof) and the goal's skolems
-		cl = cl[len(cl)-16:]
+	// plain variables (loop counters, the goal's skolem constants) and literals first, then the
+	// most recent compound index terms
+	rank := func(t *Term) int {
+		if t.Op == "var" || t.Op == "lit" {
+			return 0
+		}
+		return 1
+	}
+	sort.Slice(cl, func(i, j int) bool {
+		if rank(cl[i]) != rank(cl[j]) {
+			return rank(cl[i]) < rank(cl[j])
+		}
+		return cl[i].id > cl[j].id
+	})
+	if len(cl) > 20 {
+		cl = cl[:20]
 	}
 	var out []*Term
 	dedup := map[*Term]bool{}
@@ -374,9 +386,41 @@ func groundFacts(facts []*Term, goal *Term, extra []*Term) []*Term {
 		}
 		quant = append(quant, f)
 	}
+	// quantified facts that are assumed as such (possibly under guards), in canonical form: an
+	// instance of a lemma whose hypothesis is literally one of them may use it
+	known := map[*Term]*Term{}
+	for _, f := range facts {
+		var guards []*Term
+		g := f
+		for g.Op == "=>" && len(g.Args) == 2 {
+			guards = append(guards, g.Args[0])
+			g = g.Args[1]
+		}
+		conj := []*Term{g}
+		if g.Op == "and" {
+			conj = g.Args
+		}
+		for _, c := range conj {
+			if _, _, ok := isForall(c); ok {
+				known[canonForall(c)] = And(guards...)
+			}
+		}
+	}
+	discharge := func(t *Term) *Term {
+		// t = (=> H C) possibly under guards: replace conjuncts of H that are known foralls by their guards
+		return mapNeg(t, func(q *Term) *Term {
+			if g, ok := known[canonForall(q)]; ok {
+				return g
+			}
+			return nil
+		})
+	}
 	dedup := map[*Term]bool{}
 	n := 0
 	add := func(t *Term) bool {
+		if containsForall(t, fc) {
+			t = discharge(t)
+		}
 		if t == True || dedup[t] || containsForall(t, fc) {
 			return false
 		}
@@ -414,9 +458,8 @@ func groundFacts(facts []*Term, goal *Term, extra []*Term) []*Term {
 					vars[q.Args[i]] = true
 				}
 				for _, pat := range q.Args[nv+1:] {
-					for _, g := range idx[pat.Op] {
-						b := map[*Term]*Term{}
-						if !matchPat(pat, g, vars, b) || len(b) != nv {
+					for _, b := range matchAll(pat, idx, vars) {
+						if len(b) != nv {
 							continue
 						}
 						inst := mapPos(f, true, func(q2 *Term) *Term {
@@ -461,4 +504,94 @@ func underlying(arr *Term, defs map[*Term]*Term, depth int) []*Term {
 		}
 	}
 	return nil
+}
+
+// matchAll returns the bindings under which pat (a term or a multi-pattern) matches ground terms.
+func matchAll(pat *Term, idx map[string][]*Term, vars map[*Term]bool) []map[*Term]*Term {
+	parts := []*Term{pat}
+	if pat.Op == "mpat" {
+		parts = pat.Args
+	}
+	res := []map[*Term]*Term{{}}
+	for _, p := range parts {
+		var next []map[*Term]*Term
+		for _, b0 := range res {
+			for _, g := range idx[p.Op] {
+				b := map[*Term]*Term{}
+				for k, v := range b0 {
+					b[k] = v
+				}
+				if matchPat(p, g, vars, b) {
+					next = append(next, b)
+					if len(next) > 400 {
+						break
+					}
+				}
+			}
+		}
+		res = next
+		if len(res) == 0 {
+			return nil
+		}
+	}
+	return res
+}
+
+// canonForall renames the bound variables of a quantifier to canonical names.
+func canonForall(q *Term) *Term {
+	nv, _, _ := isForall(q)
+	m := map[*Term]*Term{}
+	var vs []*Term
+	for i := 0; i < nv; i++ {
+		c := Var(fmt.Sprintf("cb!%d", i), q.Args[i].S)
+		m[q.Args[i]] = c
+		vs = append(vs, c)
+	}
+	return Forall(vs, Subst(q.Args[nv], m))
+}
+
+// mapNeg rebuilds t with f applied to every forall in negative position (hypotheses).
+func mapNeg(t *Term, f func(q *Term) *Term) *Term {
+	var rec func(t *Term, pos bool) *Term
+	rec = func(t *Term, pos bool) *Term {
+		switch t.Op {
+		case "and", "or":
+			args := make([]*Term, len(t.Args))
+			ch := false
+			for i, a := range t.Args {
+				args[i] = rec(a, pos)
+				ch = ch || args[i] != a
+			}
+			if !ch {
+				return t
+			}
+			if t.Op == "and" {
+				return And(args...)
+			}
+			return Or(args...)
+		case "=>":
+			if len(t.Args) != 2 {
+				return t
+			}
+			a := rec(t.Args[0], !pos)
+			b := rec(t.Args[1], pos)
+			if a == t.Args[0] && b == t.Args[1] {
+				return t
+			}
+			return Implies(a, b)
+		case "not":
+			a := rec(t.Args[0], !pos)
+			if a == t.Args[0] {
+				return t
+			}
+			return Not(a)
+		}
+		if _, _, ok := isForall(t); ok && !pos {
+			if r := f(t); r != nil {
+				return r
+			}
+		}
+		return t
+	}
+	return rec(t, true)
 }
